@@ -113,8 +113,9 @@ def add_marshal_contracts(w, targets):
                     ('re-marshalling without a new serial needs the old one', z3.Or(cx.args['newSerial'].term, z3.Not(me.serial.none))),
                     ('a body accompanies its signature', z3.Implies(z3.And(z3.Not(sig.none), sig.val.term != sv('')), z3.Not(me.body.none))),
                     ('the body signature is a valid signature', z3.Implies(z3.Not(sig.none), MC.VSIG(sig.val.term))),
-                    ('messages are built little-endian (the class default; nothing in txdbus sets another value)', me.endian == ord('l')),
-                    ('byte-order-of-this-encoding', MC.le_skolem(cx))]
+                    ('messages are built little-endian (the class default); a parsed message that is passed on keeps the byte order it came in',
+                     me.endian == ord('l') if not isinstance(cx.args.get('rawBody'), VBytes) else z3.Or(me.endian == ord('l'), me.endian == ord('B'))),
+                    ('byte-order-of-this-encoding', MC.le_skolem(cx) if not isinstance(cx.args.get('rawBody'), VBytes) else MC.le_skolem(cx) == (me.endian == ord('l')))]
 
         def expected_headers(cx, attrs=attrs):
             """the field list the table prescribes: one [code, value] per attribute that is set, in table order"""
@@ -139,7 +140,11 @@ def add_marshal_contracts(w, targets):
             flags = z3.If(old.expectReply, 0, 1) + z3.If(old.autoStart, 0, 2)
             sig = old.signature
             has_body = z3.And(z3.Not(sig.none), sig.val.term != sv(''))
-            body = z3.If(has_body, MC.ENCS(MC.PIECES(sig.val.term), old.body.val.seqs[0], MC_nmin(MC.PIECES(sig.val.term), old.body.val.seqs[0]), 0, z3.BoolVal(True)), sv(''))
+            if isinstance(cx.args.get('rawBody'), VBytes):
+                # a message that is passed on: the encoded body is kept byte for byte
+                body = cx.a('rawBody')
+            else:
+                body = z3.If(has_body, MC.ENCS(MC.PIECES(sig.val.term), old.body.val.seqs[0], MC_nmin(MC.PIECES(sig.val.term), old.body.val.seqs[0]), 0, z3.BoolVal(True)), sv(''))
             exp = expected_headers(cx)
             hs = new.headers.seqs
             V = seq_of(IntSort, [old.endian, z3.IntVal(mtype), flags, z3.IntVal(1), new.bodyLength, new.serial.val.term, list_id(hs)])
@@ -160,13 +165,22 @@ def add_marshal_contracts(w, targets):
         def raises_limit(cx):
             return z3.BoolVal(True)
 
-        contract(w, 'txdbus.message.DBusMessage._marshal#' + kind, {'self': Ref(kind), 'newSerial': BOOL, 'oobFDs': NONE},
+        contract(w, 'txdbus.message.DBusMessage._marshal#' + kind, {'self': Ref(kind), 'newSerial': BOOL, 'oobFDs': NONE, 'rawBody': NONE},
                  fn=message.DBusMessage._marshal,
                  requires=pre, ensures=post,
                  modifies=lambda cx: [(cx.args['self'], 'DBusMessage.' + f) for f in ('headers', 'bodyLength', 'serial', 'rawHeader', 'rawPadding', 'rawBody', 'rawMessage')] + [(GLOBALS, 'MsgGlobals.nextSerial')],
                  raises={Exception: lambda cx: z3.BoolVal(True)}, may_raise_any=True,
                  raises_post={})
         targets.append('txdbus.message.DBusMessage._marshal#' + kind)
+        if kind == 'MethodReturnMessage':
+            # the same function when a parsed message is passed on (the bus stamping the sender): body bytes given, kept as they are
+            contract(w, 'txdbus.message.DBusMessage._marshal#' + kind + '+rawBody', {'self': Ref(kind), 'newSerial': BOOL, 'oobFDs': NONE, 'rawBody': BYTES},
+                     fn=message.DBusMessage._marshal,
+                     requires=pre, ensures=post,
+                     modifies=lambda cx: [(cx.args['self'], 'DBusMessage.' + f) for f in ('headers', 'bodyLength', 'serial', 'rawHeader', 'rawPadding', 'rawBody', 'rawMessage')] + [(GLOBALS, 'MsgGlobals.nextSerial')],
+                     raises={Exception: lambda cx: z3.BoolVal(True)}, may_raise_any=True,
+                     raises_post={})
+            targets.append('txdbus.message.DBusMessage._marshal#' + kind + '+rawBody')
 
 
 # ------------------------------------------------------------------ parseMessage (its own world of contracts)
@@ -290,6 +304,7 @@ def parse_world():
                  z3.And(m.rawHeader == S.slice_(cx.ctx, raw, z3.IntVal(0), n), m.rawPadding == S.slice_(cx.ctx, raw, n, n + npad),
                         m.rawBody == S.slice_(cx.ctx, raw, n + npad, None))),
                 ('body decoded under the parsed signature in the byte order of the first byte', body_ok),
+                ('the byte order of the message is recorded (kept when the message is serialised again)', m.endian == z3.If(le, ord('l'), ord('B'))),
                 ('no body is decoded under a signature longer than 255 characters (decoding costs signature length x elements)',
                  z3.Implies(sig.kind == 2, z3.Length(sig.s) <= 255)),
                 ('every header attribute is the value of the LAST header field carrying its code (unknown codes ignored), unset when there is none',
